@@ -52,6 +52,9 @@ def gen_case(rng, quick, wide=False):
         kind = rng.choice(kindsNC)
         if ob["ProjectileDIS"] in ("neutrino", "antineutrino"):
             ob["ProjectileDIS"] = "electron"
+    if kind in ("F2", "FL", "F3", "g1") and rel in ("ffns", "zm", "fonll") and rng.random() < 0.4:
+        # target-mass corrections are linear in the structure functions of ONE flavour: additivity must survive them
+        th.update(TMC=rng.choice([1, 2, 3]), MP=0.5)
     return dict(rel=rel, theory=th, obs=ob, kind=kind, x=x, Q2=Q2)
 
 
@@ -96,11 +99,14 @@ def run_case(c):
 def patrol(chk, n, wide=False):
     dist, bad, crashed = {}, [], {}
     quick = chk.tier == "quick"
-    for _ in range(n):
-        c = gen_case(chk.rng, quick, wide)
+    # always part of the patrol: fixed-flavour total = light + heavy with the two integral-based target-mass prescriptions
+    fixed = [] if wide else [dict(rel="ffns", theory=dict(PTO=1, PTODIS=1, TMC=t, MP=0.5, mc=1.5, mb=4.5, mt=173.0), obs=dict(prDIS="NC"), kind=k, x=0.25, Q2=8.0,
+                                  fixed_nfff=3) for t, k in ((1, "F2"), (3, "FL"))]
+    for it in range(n + len(fixed)):
+        c = fixed[it - n] if it >= n else gen_case(chk.rng, quick, wide)
         if c['theory']['PTO'] == 3:
             c['rel'] = chk.rng.choice(['pos', 'zm']); c['kind'] = chk.rng.choice(['F2', 'FL', 'F3'])
-        c["nfff"] = chk.rng.choice([3, 3, 4, 5])
+        c["nfff"] = c.get("fixed_nfff") or chk.rng.choice([3, 3, 4, 5])
         c["heavyness"] = chk.rng.choice(["total", "total", "light", "charm", "bottom"])
         c["fns"] = chk.rng.choice(["ZM-VFNS", "FFNS"])
         key = "%s/%s/%s" % (c["rel"], c["obs"]["prDIS"], c["kind"])
@@ -112,8 +118,8 @@ def patrol(chk, n, wide=False):
             continue
         if r is not None:
             bad.append((c, r))
-    chk.patrol["sum_rules_wide" if wide else "sum_rules"] = dict(cases=n, failures=len(bad), distribution=dist, crashed_not_counted=crashed,
-                                   rule="real runs: ZM total vs light; FFNS total vs light + massive heavy quarks; FONLL-FFNS full vs massless + "
+    chk.patrol["sum_rules_wide" if wide else "sum_rules"] = dict(cases=n + len(fixed), failures=len(bad), distribution=dist, crashed_not_counted=crashed,
+                                   rule="real runs (target-mass corrections on in part of them, two fixed FFNS cases with TMC 1 and 3): ZM total vs light; FFNS total vs light + massive heavy quarks; FONLL-FFNS full vs massless + "
                                         "massive; sum over the six NCPositivityCharge runs vs unrestricted; every order key, entry-wise, tol 1e-11")
     for c, r in bad[:3]:
         chk.violation("%s:%s:%s" % (c["rel"], c["kind"], c["obs"]["prDIS"]),
